@@ -143,10 +143,11 @@ def run(tier):
     chk.cov["distinct_nontrivial"] = chk.cov["traces_validated_against_impl"]
     chk.cov["rule"] = ("one case per sampled reachable pre-crash state of Crash.tla (history + admissible outcome per crash point); each is executed on the "
                        "real engine and crash images are taken at: the journal write of the last call, between calls, every byte offset (thorough) / sampled offsets "
-                       "(quick) of the last log frame, snap.tmp_written/renamed/truncated, rw.tmp_written/replaced")
+                       "(quick) of the last log frame, snap.tmp_written/renamed/truncated, rw.tmp_written/replaced, inside VDeleteIndex/VCompress/VImportCommit as last call, "
+                       "and DURING the recovery of those images (replay.scanned, replay.applied)")
     chk.cov["samples"] = [c["ops"] for _, cs in plans for c in cs[:2]]
     chk.assumptions += ["process-death model: the image is a copy of the data directory as the OS sees it at the hook point (page cache survives, user-space buffers are lost)",
-                        "crash points inside VDeleteIndex, VImportCommit and Compress (hooks drop.mem, cmp.*) and a second crash during recovery are not enumerated yet",
+                        "a second crash during recovery is taken for every non-torn image and for every ninth torn offset, at the two recovery hooks only (after scan/truncation, after apply)",
                         "model constants as in C01"]
     return chk.finish()
 
